@@ -142,6 +142,39 @@ def cases(rng, tier, shard, nshards):
                 e.update({'points': pts, 'c': c, 'gaps': np.full(la + lb, g, dtype=np.int64), 'cls': e['cls'] + ':symmetric'})
                 yield e
                 continue
+            if u < 0.08:
+                # twin elbows: B's straight left arm has the same number of points and the same end points as a BENT prefix
+                # of A (state keyed on a segment's size and end points instead of its contents would carry over)
+                r = int(rng.integers(3, 9))
+                g = int(pick(rng, [1, 2, 4]))
+                a1, a2 = int(rng.integers(-60, 61)), int(rng.integers(-60, 61))
+                if (a1 + a2) % 2 or a1 == a2:
+                    a2 += 1 if a2 < 60 else -1
+                    if (a1 + a2) % 2 or a1 == a2:
+                        a2 += 2 if a2 < 59 else -2
+                s_b = (a1 + a2) // 2
+                b2 = s_b + (3 if s_b <= 60 else -3)
+                if abs(a1) <= 64 and abs(a2) <= 64 and a1 != a2 and abs(b2) <= 64 and (a1 + a2) % 2 == 0:
+                    x0, e_, m_ = int(rng.integers(0, 9)), 3, int(rng.integers(-2000, 2001))
+                    lbA = 2 * r + int(rng.integers(3, 8))
+                    A = elbow(rng, r, lbA, a1, a2)
+                    ptsA, cA = build(x0, np.full(r + lbA, g), r, a1, a2, m_, e_)
+                    A.update({'points': ptsA, 'c': cA, 'x0': x0, 'm': m_, 'e': e_, 'gaps': np.full(r + lbA, g, dtype=np.int64),
+                              'cls': A['cls'] + ':twin-A', 'layout': 'C'})
+                    # B passes through A's first point and through A[2r]; its corner is at index 2r
+                    yB0 = float(ptsA[0, 1])
+                    lbB = int(rng.integers(3, 9))
+                    x = ptsA[0, 0] + g * np.arange(2 * r + lbB + 1, dtype=float)
+                    cB = 2 * r
+                    yB = np.where(np.arange(len(x)) <= cB, yB0 + (s_b / 8.0) * (x - x[0]),
+                                  yB0 + (s_b / 8.0) * (x[cB] - x[0]) + (b2 / 8.0) * (x - x[cB]))
+                    if yB[cB] == ptsA[cB, 1]:
+                        B = dict(A, points=np.ascontiguousarray(np.column_stack((x, yB))), c=cB, la=cB, lb=lbB, j1=int(s_b), j2=int(b2),
+                                 gaps=np.full(2 * r + lbB, g, dtype=np.int64), cls=orientation(s_b, b2) + ':twin-B',
+                                 m=m_ + a2 * g * r, shifted=False)
+                        yield A
+                        yield B
+                        continue
             yield elbow(rng, la, lb, j1, j2)
         # a few strongly unbalanced elbows with steep neighbouring slopes (3-5 segments against hundreds): the faint
         # corner sits next to splits whose error differs from it by a few ulps of the long arm's sum of squares
